@@ -13,10 +13,19 @@ hold of the TRANSLATED code: the loop of `build_sparse_nfa` / `build_original_nf
 (`add` for every pattern, then the `nfa.len == 0` test) accepts exactly the valid collections,
 rejects the others with `InvalidArgument` / `DuplicatePattern`, and never panics.
 
-Outside: `build_fails*`, `build_outputs` and the DFS layout loop are not translated (K-build);
-the prelude Daac/Gen/PreludeNfa.lean fixes the meaning of `BTreeMap`/`BTreeSet`/`RefCell`.
+The fail-link and output passes `build_fails`, `build_fails_leftmost`, `build_outputs` are translated
+too (explicit BFS queue with a cursor, the inner fail walk with fuel) and proved to refine the
+model's `buildFailMap` / `buildOutAcc` (Proofs/TieF*.lean): the explicit queue is the level order
+`Trie.queue`, every state's `fail` is the id of the model's fail target (or the dead state under the
+leftmost kinds), `output_pos` and the output records agree, nothing panics and no fuel runs out.
+`generated_sparse_nfa` below is the whole of `build_sparse_nfa` after the insertion loop.
+
+Outside: the prelude Daac/Gen/PreludeNfa.lean fixes the meaning of `BTreeMap`/`BTreeSet`/`RefCell`
+(dynamic borrow checks of `RefCell` are not modelled); the byte-wise DFS layout loop is tied in
+Props/TieLayout.lean; the char-wise one and the code-mapper construction only by K-build.
 -/
 import Daac.Proofs.TieN
+import Daac.Proofs.TieFAll
 import Daac.Props.C10
 namespace Daac.Props.TieNfa
 open Daac Daac.Gen.N Daac.Tie.N
@@ -129,6 +138,25 @@ theorem generated_insertion_err_kind (nb : Nat → Nat) (kind : Nat) (P : List (
     (h : addAllGen nb (NfaBuilder.new kind) P = .error e) :
     e = .invalidArgument ∨ e = .duplicatePattern :=
   model_addAll_err _ P _ e (((generated_insertion_eq_model nb kind P hsz hlen).1 e).1 h)
+
+/-- **The sparse NFA of the translated code = the model's**, every collection, every match kind:
+after a successful translated insertion fold that registered a pattern, the translated fail pass
+selected by the kind (standard for 0, leftmost for 1 / 2, as `build_sparse_nfa` does) and
+`build_outputs` succeed, and the resulting states represent `buildNfa t (kind != 0)` for the model
+trie `t`: the BFS queue is `t.queue`, each node's `fail` / `output_pos` are the model's, the output
+records are the model's. -/
+theorem generated_sparse_nfa (nb : Nat → Nat) (kind : Nat) (P : List (LPat V)) (g : NfaBuilder V)
+    (hsz : 2 + (P.map (·.key.length)).sum ≤ 4294967295)
+    (hlen : ∀ p ∈ P, (p.key.map nb).sum = p.blen ∧ p.blen ≤ 4294967295)
+    (hadd : addAllGen nb (NfaBuilder.new kind) P = .ok g) (hl : g.len ≠ 0) :
+    ∃ t pth q g1 g2, buildTrie kind P = .ok t ∧ Rep g.states pth t 0 [] ∧
+      Tie.F.failPass kind g = .ok (q, g1) ∧ NfaBuilder.build_outputs g1 q = .ok ((), g2) ∧
+      Tie.F.SameShape g.states g2.states ∧ q.toList.map pth = t.queue.map some ∧
+      (∀ u i, Tie.F.idAt g.states 0 u = some i → ∃ s : NfaBuilderState V, g2.states[i]? = some s ∧
+        Tie.F.FailRel g.states ((buildNfa t (kind != 0)).fail.get u) s.fail ∧
+        Tie.F.OposRel s.output_pos ((buildNfa t (kind != 0)).out.opos.getD u 0)) ∧
+      Tie.F.OutsRel g2.outputs (buildNfa t (kind != 0)).out.outs :=
+  Tie.F.sparse_nfa_refines nb kind P g hsz hlen hadd hl
 
 /-- Non-vacuity / the former D2 witness on the translated code: under leftmost-first the repeated,
 shadowed pattern of `["a","ab","ab"]` is rejected as a duplicate. -/
